@@ -343,15 +343,19 @@ class ArMember(object):
         return buf
 
     def readlines(self, sizehint=0):
-        # type: (int) -> List[bytes]
-        # pylint: disable=unused-argument
+        # type: (Optional[int]) -> List[bytes]
         buf = None
         lines = []
+        total = 0
         while True:
             buf = self.readline()
             if not buf:
                 break
             lines.append(buf)
+            total += len(buf)
+            if sizehint is not None and 0 < sizehint <= total:
+                # like any file: no more lines once sizehint bytes are read
+                break
 
         return lines
 
